@@ -22,6 +22,11 @@ theorem Pres.ite {I : State → Prop} {c : Prop} [Decidable c] {a b : M α}
     (ha : Pres I a) (hb : Pres I b) : Pres I (if c then a else b) := by
   split <;> assumption
 
+/-- running a conditional program -/
+theorem ite_run {α : Type} (c : Prop) [Decidable c] (a b : M α) (s : State) :
+    (if c then a else b) s = if c then a s else b s := by
+  split <;> rfl
+
 theorem Pres.getS {I : State → Prop} : Pres I getS := fun _ h => h
 theorem Pres.getK {I : State → Prop} : Pres I getK := fun _ h => h
 theorem Pres.getA {I : State → Prop} : Pres I getA := fun _ h => h
